@@ -88,7 +88,7 @@ type c14Witness struct {
 func init() {
 	core.Register(&core.Check{
 		ID:   "C14",
-		Rule: "all handler scripts of length 0..4 over 9 operations {set Content-Type, set required X-Req, WriteHeader(200|201|500|404), Write(valid JSON chunk), Write(schema-violating chunk), Flush} (7381 scripts) x request classes {valid, invalid parameter, unrouted path, undeclared method} x strict on/off x default/custom OnErr+OnLog callbacks, through Validator.Middleware over the gorillamux router; plus the request gate of ValidationHandler (legacy router, file-loaded document). For every case the bare handler is run against the same kind of recorder (differential oracle), ValidateResponse on the bare result defines response validity, the handler invocation count is recorded. Distinct = (script, request class, strict, callbacks, wrapper); all are non-trivial (the empty script included).",
+		Rule: "all handler scripts of length 0..4 (quick; 0..6 in the thorough tier: 597,871 scripts) over 9 operations {set Content-Type, set required X-Req, WriteHeader(200|201|500|404), Write(valid JSON chunk), Write(schema-violating chunk), Flush} (7381 scripts) x request classes {valid, invalid parameter, unrouted path, undeclared method} x strict on/off x default/custom OnErr+OnLog callbacks, through Validator.Middleware over the gorillamux router; plus the request gate of ValidationHandler (legacy router, file-loaded document). For every case the bare handler is run against the same kind of recorder (differential oracle), ValidateResponse on the bare result defines response validity, the handler invocation count is recorded. Distinct = (script, request class, strict, callbacks, wrapper); all are non-trivial (the empty script included).",
 		Assumptions: []string{
 			"client transcript = what an httptest.ResponseRecorder observes (effective status = first WriteHeader else 200 at first Write or at the end; body = concatenated writes)",
 			"response headers set by the handler are not covered by the statement (only status code and body bytes)",
@@ -99,13 +99,13 @@ func init() {
 	})
 }
 
-func c14Scripts() [][]c14op {
+func c14Scripts(maxLen int) [][]c14op {
 	ops := c14Ops()
 	var out [][]c14op
 	var rec func(cur []c14op, depth int)
 	rec = func(cur []c14op, depth int) {
 		out = append(out, append([]c14op{}, cur...))
-		if depth == 4 {
+		if depth == maxLen {
 			return
 		}
 		for _, o := range ops {
@@ -140,7 +140,7 @@ func runC14(c *core.Ctx) {
 		{"unrouted-path", "GET", "http://h.t/nope?x=1", 404, openapi3filter.ErrCodeCannotFindRoute},
 		{"undeclared-method", "DELETE", "http://h.t/m?x=1", 404, openapi3filter.ErrCodeCannotFindRoute},
 	}
-	scripts := c14Scripts()
+	scripts := c14Scripts(c.Pick(4, 6))
 	for si, script := range scripts {
 		if !c.Mine(si) {
 			continue
